@@ -138,16 +138,25 @@ Print Assumptions C01_source_tables.
 Print Assumptions C01_holds.
 
 (** ** tie to the source text: the bodies of Header::decode, Header::encode,
-    Message::new, Message::from_slice and Message::from_slice_exact, re-translated
-    into Gallina by bin/rs2v on every run (Gen/FrameGen.v) with every panicking
-    operation kept ([add64], [slice_chk], [index_chk]), are the model's functions
-    on all inputs.  encode: the code stores the two u8 fields as they are, the
-    model writes [le_enc 1].  Message::new: the code adds [48 + |q| + |b|] with
-    overflow-checked u64 [+] where the model adds in [N]; they differ exactly
-    when that sum reaches 2^64, which no two Vec lengths can.  A function that
-    could not be translated is [None] and its clause is [True] (reported by
-    rs2v); a function whose meaning changed breaks the proof. *)
+    Message::new, Message::from_slice and Message::from_slice_exact (Gen/FrameGen.v)
+    and of Header::new, Message::to_vec, Message::into_wire_bytes,
+    MessageBuilder::build, stamp_response_query and response_echo_query
+    (Gen/BuildGen.v), re-translated into Gallina by bin/rs2v on every run with every
+    panicking operation kept ([add64], [slice_chk], [index_chk], [copy_chk],
+    [copy_within_chk]), are the model's functions on all inputs.  encode: the code
+    stores the two u8 fields as they are, the model writes [le_enc 1].  Message::new,
+    to_vec, into_wire_bytes, build: the code adds [48 + |q| + |b|] with
+    overflow-checked u64 [+] where the model adds in [N]; they differ exactly when
+    that sum reaches 2^64, which no two Vec lengths can.  stamp_response_query adds
+    the header's [body_length] field instead of [|b|]: that sum can reach 2^64 for a
+    response whose header a handler filled in by hand, and exactly then the code
+    panics (overflow checks on) where the model does not.  into_wire_bytes: [cap]
+    is the capacity of the body vector (a parameter of the rendering and of the
+    model).  Allocation ([Vec::with_capacity], growth) is assumed to succeed.  A
+    function that could not be translated is [None] and its clause is [True]
+    (reported by rs2v); a function whose meaning changed breaks the proof. *)
 From RepeV Require Import Base.GenFramePrelude Gen.FrameGen Proofs.FrameGenAgree.
+From RepeV Require Import Base.GenVecPrelude Gen.BuildGen Proofs.BuildGenAgree Proofs.BuildTables.
 
 Theorem C01_source_translation :
   agrees1 gen_decode decode /\
@@ -161,8 +170,44 @@ Theorem C01_source_translation :
   | None => True
   end /\
   agrees1 gen_from_slice from_slice /\
-  agrees1 gen_from_slice_exact from_slice_exact.
-Proof. exact c01_source_translation. Qed.
+  agrees1 gen_from_slice_exact from_slice_exact /\
+  match gen_header_new with
+  | Some f => f = Ok (mkHeader 0 REPE_SPEC REPE_VERSION 0 0 0 0 0 0 0 0)
+  | None => True
+  end /\
+  match gen_to_vec with
+  | Some f => forall m, h_version (m_hdr m) < 256 -> h_notify (m_hdr m) < 256 ->
+      f m = if HEADER_SIZE + lenN (m_query m) + lenN (m_body m) <? two64 then Ok (to_vec m) else Panic
+  | None => True
+  end /\
+  match gen_into_wire_bytes with
+  | Some f => forall cap m, h_version (m_hdr m) < 256 -> h_notify (m_hdr m) < 256 ->
+      f cap m = if HEADER_SIZE + lenN (m_query m) + lenN (m_body m) <? two64 then Ok (into_wire_bytes cap m) else Panic
+  | None => True
+  end /\
+  match gen_build with
+  | Some f => forall b,
+      f b = if HEADER_SIZE + lenN (b_query b) + lenN (b_body b) <? two64 then Ok (build b) else Panic
+  | None => True
+  end /\
+  match gen_stamp_response_query with
+  | Some f => forall resp q,
+      f resp q = if (lenN q =? 0) || negb (lenN (m_query resp) =? 0) || (HEADER_SIZE + lenN q + h_blen (m_hdr resp) <? two64)
+                 then Ok (stamp resp q) else Panic
+  | None => True
+  end /\
+  match gen_response_echo_query with
+  | Some f => forall resp q, f resp q = Ok (echo_query (m_query resp) q)
+  | None => True
+  end.
+Proof. exact c01_source_translation_build. Qed.
+
+(** the format codes written by [build] ([QueryFormat::RawBinary as u16] ..) are the source's *)
+Theorem C01_source_format_codes :
+  agrees src_QueryFormat_RawBinary QF_RAW_BINARY /\ agrees src_QueryFormat_JsonPointer QF_JSON_POINTER /\
+  agrees src_BodyFormat_RawBinary BF_RAW_BINARY /\ agrees src_BodyFormat_Beve BF_BEVE /\
+  agrees src_BodyFormat_Json BF_JSON /\ agrees src_BodyFormat_Utf8 BF_UTF8.
+Proof. exact c01_format_codes_agree. Qed.
 
 Check C01_source_translation :
   agrees1 gen_decode decode /\
@@ -176,6 +221,41 @@ Check C01_source_translation :
   | None => True
   end /\
   agrees1 gen_from_slice from_slice /\
-  agrees1 gen_from_slice_exact from_slice_exact.
+  agrees1 gen_from_slice_exact from_slice_exact /\
+  match gen_header_new with
+  | Some f => f = Ok (mkHeader 0 REPE_SPEC REPE_VERSION 0 0 0 0 0 0 0 0)
+  | None => True
+  end /\
+  match gen_to_vec with
+  | Some f => forall m, h_version (m_hdr m) < 256 -> h_notify (m_hdr m) < 256 ->
+      f m = if HEADER_SIZE + lenN (m_query m) + lenN (m_body m) <? two64 then Ok (to_vec m) else Panic
+  | None => True
+  end /\
+  match gen_into_wire_bytes with
+  | Some f => forall cap m, h_version (m_hdr m) < 256 -> h_notify (m_hdr m) < 256 ->
+      f cap m = if HEADER_SIZE + lenN (m_query m) + lenN (m_body m) <? two64 then Ok (into_wire_bytes cap m) else Panic
+  | None => True
+  end /\
+  match gen_build with
+  | Some f => forall b,
+      f b = if HEADER_SIZE + lenN (b_query b) + lenN (b_body b) <? two64 then Ok (build b) else Panic
+  | None => True
+  end /\
+  match gen_stamp_response_query with
+  | Some f => forall resp q,
+      f resp q = if (lenN q =? 0) || negb (lenN (m_query resp) =? 0) || (HEADER_SIZE + lenN q + h_blen (m_hdr resp) <? two64)
+                 then Ok (stamp resp q) else Panic
+  | None => True
+  end /\
+  match gen_response_echo_query with
+  | Some f => forall resp q, f resp q = Ok (echo_query (m_query resp) q)
+  | None => True
+  end.
+
+Check C01_source_format_codes :
+  agrees src_QueryFormat_RawBinary QF_RAW_BINARY /\ agrees src_QueryFormat_JsonPointer QF_JSON_POINTER /\
+  agrees src_BodyFormat_RawBinary BF_RAW_BINARY /\ agrees src_BodyFormat_Beve BF_BEVE /\
+  agrees src_BodyFormat_Json BF_JSON /\ agrees src_BodyFormat_Utf8 BF_UTF8.
 
 Print Assumptions C01_source_translation.
+Print Assumptions C01_source_format_codes.
